@@ -352,7 +352,7 @@ def run(prop, tier):
     from . import engine as E
     from . import worlds as WD
 
-    Wf = [w for w in WD.catalogue(tier) if any(p.get("fn") for p in w["pars"])]
+    Wf = [w for w in WD.catalogue(tier) if any(p.get("fn") or p.get("effect") for p in w["pars"])]
     r1 = E.explore(Wf, "r1", 1, ["C06_InLimits"], [])
     if r1["overflow"]:
         raise C.MachineryError("32-bit overflow in worlds %s" % r1["overflow"])
@@ -364,6 +364,22 @@ def run(prop, tier):
     cov["engine_function_worlds"] = [w["id"] for w in Wf]
     cov["engine_function_cases_replayed"] = len(outs)
     for (wid, case), o in zip(r1["cases"], outs):
+        if o["mism"]:
+            V.violation("C06 engine pipeline %s world=%s" % (o["mism"][0][0], wid.split("_dt")[0]), dict(world=wid, case=case, mismatch=o["mism"]))
+    # ... and over several steps from the start-up sequence (parameters are evaluated, the junctions flushed, parameters evaluated again):
+    # the dependency order has to hold at every step, not only at the first one where everything is evaluated twice
+    Wf2 = [w for w in WD.catalogue_r2(tier) if any(p.get("fn") or p.get("effect") for p in w["pars"])]
+    r2 = E.explore_r2(Wf2, 6000 if thorough else 1200, ["C06_InLimits"], [])
+    if r2["overflow"]:
+        raise C.MachineryError("32-bit overflow in worlds %s" % r2["overflow"])
+    if r2["violated"]:
+        raise C.MachineryError("specification property %s refuted in world %s" % (r2["violated"][0][1], r2["violated"][0][0]))
+    outs2 = E.replay(Wf2, r2["cases"])
+    cov["states"] += r2["states"]
+    cov["transitions"] += r2["transitions"]
+    cov["engine_function_worlds_multistep"] = {w_["id"]: r2["per_world"].get(w_["id"]) for w_ in Wf2}
+    cov["engine_function_cases_replayed"] += len(outs2)
+    for (wid, case), o in zip(r2["cases"], outs2):
         if o["mism"]:
             V.violation("C06 engine pipeline %s world=%s" % (o["mism"][0][0], wid.split("_dt")[0]), dict(world=wid, case=case, mismatch=o["mism"]))
     # ---- "initial-size data are scaled by calibration factors in the same way": the initialisation cases of InitSolve.tla with
